@@ -15,7 +15,7 @@ from ..engines.seqsim import World, Violation, ABSENT, make_run_dir
 ID = "C08"
 ENGINE = "crashsim"
 LEVEL = "fault_enumeration"
-RUNS = {"quick": 3000, "thorough": 40000}
+RUNS = {"quick": 6000, "thorough": 40000}
 CHUNK = 50
 RULE = ("for each seeded save (a mutator on the root or a nested child in unbuffered mode; a per-object or backend-wide "
         "context exit flushing 1-4 files; a capacity-forced flush via set_buffer_capacity(0); both buffering strategies; "
@@ -142,16 +142,18 @@ def parse(b):
 def build(seed, i, tier):
     ns = lib.load()
     rs = stream(seed, ID, i, "cfg")
-    mode = rs.choice(["unbuffered", "unbuffered", "flush", "flush", "unserialisable"])
-    fams = ns.json_families if mode != "flush" else ns.buffered_families
+    mode = rs.choice(["unbuffered", "unbuffered", "flush", "flush", "unserialisable", "unserialisable", "unserialisable-flush"])
+    fams = ns.json_families if mode not in ("flush", "unserialisable-flush") else ns.buffered_families
+    if mode == "unserialisable-flush":
+        fams = [f for f in fams if ns.families[f]["strategy"] == "memory"]   # the serialized strategy encodes at the operation itself
     fam = G.pick(rs, fams)
     wc = rs.random() < 0.5
     threading = rs.random() < 0.5
-    if mode != "unserialisable" and not (wc or threading):
+    if not mode.startswith("unserialisable") and not (wc or threading):
         wc = True
     cfg = {"prop": ID, "family": fam, "wc": wc, "threading": threading, "oracles": [], "uuid_seed": rs.getrandbits(32), "mode": mode,
            "strategy": ns.families[fam]["strategy"], "kinds": [G.pick(rs, ["dict", "list"]) for _ in range(4)],
-           "nres": 1 if mode == "unbuffered" else rs.choice([1, 2, 3, 4]), "big": rs.random() < 0.25}
+           "nres": 1 if mode in ("unbuffered", "unserialisable-flush") else rs.choice([1, 2, 3, 4]), "big": rs.random() < 0.25}
     return cfg
 
 
@@ -181,7 +183,27 @@ def scenario(cfg, seed, i, kill_at=None, want_states=False):
         mode = cfg["mode"]
         label = mode
         bad = None
-        if mode == "flush":
+        if mode == "unserialisable-flush":
+            # unserialisable content enters the shared-memory buffer; the flush at the context exit must raise and leave the file alone
+            o = w.objs[0]
+            r0 = w.res[0]
+            kinds = [cfg["kinds"][0]]
+            if rg.random() < 0.5:
+                cm = o.o.buffered
+            else:
+                cm = w.cls_of(cfg["family"], cfg["kinds"][0]).buffer_backend()
+            cm.__enter__()
+            if r0.kind == "dict":
+                o.o["huge"] = 10 ** 5000
+            else:
+                o.o.append(10 ** 5000)
+            bad = "bigint"
+            label = "unserialisable-flush-bigint"
+            fn = lambda: cm.__exit__(None, None, None)   # noqa
+            old = dir_state(w)
+            expect_new = [deep(x.model) for x in w.res]
+            mode = "unserialisable"
+        elif mode == "flush":
             kinds = sorted({cfg["kinds"][r] for r in range(cfg["nres"])})
             shape = rg.choice(["obj", "backend", "forced"])
             if shape == "obj":
@@ -303,7 +325,7 @@ def run_one(seed, i, tier):
     cfg = build(seed, i, tier)
     out = run_isolated(scenario, (cfg, seed, i, None, tier == "thorough" and i % 10 == 0), timeout=120)
     probes = {"crash_between_tmp_write_and_replace": out["between"], "torn_prefix_states": out["torn"],
-              "unserialisable_checked": int(cfg["mode"] == "unserialisable")}
+              "unserialisable_checked": int(cfg["mode"].startswith("unserialisable"))}
     validated = 0
     if tier == "thorough" and i % 10 == 0 and out.get("states_by_event") and not out["viol"]:
         # validate predicted crash states against real kills at the same events
